@@ -105,7 +105,9 @@ def _walk(rng, shape, y0, x0, n):
 def _shape_masks(rng, shape, kind):
     """Return a list of boolean footprints (one per label) for one ingredient."""
     ny, nx = shape
-    yc, xc = rng.uniform(1, ny - 2), rng.uniform(1, nx - 2)
+    def U(a, b):
+        return rng.uniform(min(a, b), max(a, b))
+    yc, xc = U(1, ny - 2), U(1, nx - 2)
     if kind == 'blob':
         return [_ellipse(shape, yc, xc, rng.uniform(1.2, 6), rng.uniform(1.0, 4), rng.uniform(0, np.pi))]
     if kind == 'rect':
@@ -132,7 +134,7 @@ def _shape_masks(rng, shape, kind):
         ro = rng.uniform(3.0, 7.0)
         ri = rng.uniform(1.2, ro - 1.2)
         rc = ri if rng.random() < 0.5 else rng.uniform(0.6, ri)     # touching or detached core
-        yc, xc = rng.uniform(3, ny - 4), rng.uniform(3, nx - 4)
+        yc, xc = U(3, ny - 4), U(3, nx - 4)
         outer = _ellipse(shape, yc, xc, ro, ro, 0.0)
         inner = _ellipse(shape, yc, xc, ri, ri, 0.0)
         core = _ellipse(shape, yc, xc, rc, rc, 0.0) & inner
@@ -277,11 +279,12 @@ def plane_background(rng, shape):
     return 50.0 + a * xx + b * yy + 0.7 * np.sin(0.9 * xx) * np.cos(0.4 * yy) + rng.normal(0, 0.05, shape)
 
 
-def simple_wcs(rng, shape):
+def simple_wcs(rng, shape, wide=False):
+    """TAN WCS; wide=True: arc-minute pixels, so scale and orientation vary measurably over the image."""
     from astropy.wcs import WCS
     w = WCS(naxis=2)
     w.wcs.crpix = [shape[1] / 2.0 + float(rng.uniform(-3, 3)), shape[0] / 2.0 + float(rng.uniform(-3, 3))]
-    sc = float(rng.uniform(0.5e-4, 3e-4))
+    sc = float(rng.uniform(0.5e-4, 3e-4)) if not wide else float(rng.uniform(0.01, 0.05))
     th = float(rng.uniform(0, 2 * np.pi))
     w.wcs.cd = np.array([[-sc * np.cos(th), sc * np.sin(th)], [sc * np.sin(th), sc * np.cos(th)]])
     w.wcs.crval = [float(rng.uniform(0, 360)), float(rng.uniform(-70, 70))]
@@ -373,11 +376,17 @@ def catalog_kwargs(sc):
     return q(sc.data, 'data'), kw
 
 
-def make_catalog(sc, detection_cat=None):
-    from photutils.segmentation import SegmentationImage, SourceCatalog
-    data, kw = catalog_kwargs(sc)
+def make_segm(sc):
+    from photutils.segmentation import SegmentationImage
     seg = relayout(sc.seg, sc.layout.get('seg'))
     if sc.layout.get('seg_dtype'):
         seg = seg.astype(sc.layout['seg_dtype'])
-    segm = SegmentationImage(seg)
+    return SegmentationImage(seg)
+
+
+def make_catalog(sc, detection_cat=None, segm=None):
+    from photutils.segmentation import SourceCatalog
+    data, kw = catalog_kwargs(sc)
+    if segm is None:
+        segm = make_segm(sc)
     return SourceCatalog(data, segm, detection_cat=detection_cat, **kw)
